@@ -4,7 +4,7 @@
 #![allow(dead_code, missing_docs, bare_trait_objects, unused_imports)]
 
 use std::ops::Deref;
-use std::sync::Arc;
+use libc::vshim::sync::Arc;
 
 use libc::{c_int, c_void, sigaction, siginfo_t};
 
@@ -25,6 +25,25 @@ pub unsafe fn call_handler(sig: c_int, info: *mut siginfo_t, ctx: *mut c_void) {
 
 pub fn ensure_globals() {
     GlobalData::ensure();
+}
+
+/// Initialise the globals directly and complete the `Once` with an empty
+/// closure, so that harnesses do not pay for (and do not depend on CBMC's view
+/// of) std's futex-based `Once::call` state machine: later `ensure()` calls take
+/// the `is_completed()` fast path.  Mirrors the eight lines of `ensure()`.
+pub fn init_globals() {
+    unsafe {
+        if super::GLOBAL_DATA.is_none() {
+            super::GLOBAL_DATA = Some(GlobalData {
+                data: HalfLock::new(SignalData {
+                    signals: HashMap::new(),
+                    next_id: 1,
+                }),
+                race_fallback: HalfLock::new(None),
+            });
+        }
+        super::GLOBAL_INIT.call_once(|| {});
+    }
 }
 
 // ---- half-lock façade ------------------------------------------------------
@@ -155,48 +174,66 @@ pub fn fallback_mutex_var() -> usize {
     GlobalData::ensure().race_fallback.verif_mutex_id()
 }
 
-/// Directly publish a registry state (symbolic pre-states, C02/C05): each entry
-/// is (signal, previous handler word, previous flags, actions (id, action)).
-pub struct SlotInit {
-    pub signal: c_int,
-    pub prev_handler: usize,
-    pub prev_flags: c_int,
-    pub actions: [Option<(u128, Arc<Action>)>; MAXA],
+/// Directly publish a registry state (symbolic pre-states, C02/C05).
+/// Build it with `StateBuilder`: add slots, add actions to the last slot, publish.
+pub struct StateBuilder {
+    signals: HashMap<c_int, Slot>,
 }
-
-pub fn install_state(slots: [Option<SlotInit>; 2], next_id: u128) {
-    let g = GlobalData::ensure();
-    let mut signals = HashMap::new();
-    let [a, b] = slots;
-    for s in vec![a, b] {
-        if let Some(s) = s {
-            let mut info: sigaction = unsafe { ::std::mem::zeroed() };
-            info.sa_sigaction = s.prev_handler;
-            info.sa_flags = s.prev_flags as _;
-            let mut actions = BTreeMap::new();
-            let SlotInit {
-                signal,
-                actions: acts,
-                ..
-            } = s;
-            let [a0, a1, a2, a3] = acts;
-            for x in vec![a0, a1, a2, a3] {
-                if let Some((id, act)) = x {
-                    actions.insert(ActionId(id), act);
-                }
-            }
-            signals.insert(
-                signal,
-                Slot {
-                    prev: Prev { signal, info },
-                    actions,
-                },
-            );
+impl StateBuilder {
+    pub fn new() -> Self {
+        StateBuilder {
+            signals: HashMap::new(),
         }
     }
-    let q = unsafe { ::std::mem::replace(&mut libc::vshim::ST::quiet, true) };
-    g.data.write().store(SignalData { signals, next_id });
-    unsafe { libc::vshim::ST::quiet = q };
+    pub fn slot(&mut self, signal: c_int, prev_handler: usize, prev_flags: c_int) {
+        let mut info: sigaction = unsafe { ::std::mem::zeroed() };
+        info.sa_sigaction = prev_handler;
+        info.sa_flags = prev_flags as _;
+        self.signals.insert(
+            signal,
+            Slot {
+                prev: Prev { signal, info },
+                actions: BTreeMap::new(),
+            },
+        );
+    }
+    pub fn action(&mut self, signal: c_int, id: u128, act: Arc<Action>) {
+        if let Some(slot) = self.signals.get_mut(&signal) {
+            let old = slot.actions.insert(ActionId(id), act);
+            ::std::mem::forget(old);
+        }
+    }
+    pub fn publish(self, next_id: u128) {
+        let g = GlobalData::ensure();
+        let q = unsafe { ::std::mem::replace(&mut libc::vshim::ST::quiet, true) };
+        g.data.write().store(SignalData {
+            signals: self.signals,
+            next_id,
+        });
+        unsafe { libc::vshim::ST::quiet = q };
+    }
+}
+
+pub fn publish_empty_fallback() {
+    let g = GlobalData::ensure();
+    g.race_fallback.write().store(None);
+}
+
+pub fn clone_current() -> usize {
+    let g = GlobalData::ensure();
+    let lock = g.data.write();
+    let c = SignalData::clone(&lock);
+    let n = c.signals.len();
+    drop(c);
+    n
+}
+pub fn clone_current_read() -> usize {
+    let g = GlobalData::ensure();
+    let lock = g.data.read();
+    let c = SignalData::clone(&lock);
+    let n = c.signals.len();
+    drop(c);
+    n
 }
 
 pub fn action_from<F: Fn(&siginfo_t) + Send + Sync + 'static>(f: F) -> Arc<Action> {
